@@ -238,14 +238,11 @@ def showIO (pv : Preview) (n : Node) : String :=
   "io ins=[" ++ ",".intercalate (ins.map fun (c, v) => s!"{c.label}:{showHint c.hint}:{showVal c.dflt}={showVal v.2}")
     ++ "] outs=[" ++ ",".intercalate (outs.map fun (c, v) => s!"{c.label}:{showHint c.hint}={showVal v.2}") ++ "]"
 
+/-- a refused definition is observed by the TYPE of the exception the library raises (the kinds below differ in the
+wording of the message only): all `ValueError`, except labels without returned values, a `TypeError` -/
 def showDefErr : DefErr → String
-  | .reservedName => "reservedName"
-  | .multipleReturns => "multipleReturns"
-  | .degenerate => "degenerate"
-  | .countMismatch => "countMismatch"
-  | .presence => "presence"
-  | .hintCount => "hintCount"
-  | .variadic => "variadic"
+  | .presence => "TypeError"
+  | _ => "ValueError"
 
 def parseHint (w : String) : Hint := if w == "-" then none else some w
 
@@ -253,7 +250,7 @@ def showOutcome (n : Node) : Outcome → String
   | .ret v => s!"call ret={showVal v} outs={showVals n.outs} ins={showPanel n.ins}"
   | .valueError => s!"call ValueError ins={showPanel n.ins}"
   | .readiness => s!"call Readiness ins={showPanel n.ins}"
-  | .notIterable => s!"call NotIterable ins={showPanel n.ins}"
+  | .notIterable => s!"call TypeError ins={showPanel n.ins}"
   | .runError => s!"call RunError outs={showVals n.outs} ins={showPanel n.ins}"
   | .typeError => s!"call TypeError ins={showPanel n.ins}"
 
@@ -440,7 +437,7 @@ def step (s : St) (ws : List String) : St × List String :=
           fields.mapM parseField with
     | some al, some fhs =>
       match nodeFields s.cfg al (fhs.map (·.1)) with
-      | none => ({ s with key := none, kind := .none, pv := none, proto := none, node := none, ranOk := false }, ["def err dataclass"])
+      | none => ({ s with key := none, kind := .none, pv := none, proto := none, node := none, ranOk := false }, ["def err TypeError"])
       | some fs' =>
         let pv : Preview := (dcInPreview fs' (fhs.map (·.2)), [("dataclass", some "*")])
         defMade s s.cfg.dcByName ⟨.dc, pv, dcNode fs'⟩
